@@ -5,7 +5,7 @@
    CRS parsing and the YAML text layer are oracles (function / table arguments), never axioms. *)
 From Coq Require Import Reals ZArith Bool List Lra Lia PrimFloat.
 From PR Require Import Base.Num Base.RNum Base.F64 Model.AreaConfig Model.AreaYaml Model.C13_run
-     Gen.GenC13 Proofs.C13_base Proofs.C13_sets Proofs.C13_contra Proofs.C13_missing Proofs.C13_round Proofs.C13_yaml Proofs.C13_gen Proofs.C13_snap.
+     Gen.GenC13 Proofs.C13_base Proofs.C13_sets Proofs.C13_contra Proofs.C13_missing Proofs.C13_round Proofs.C13_yaml Proofs.C13_gen Proofs.C13_snap Model.Grid Proofs.C13_more.
 Import ListNotations.
 Open Scope R_scope.
 
@@ -111,6 +111,54 @@ Proof. exact gen_round_shape_is_model. Qed.
 Print Assumptions C13_generated_round_shape_is_model.
 Theorem C13_generated_sign_is_model : forall x : R, IZR (gen_sign RO x) = signT RO x.
 Proof. exact gen_sign_is_model. Qed.
+(* _extrapolate_information, regenerated from /repo once per None-pattern of its arguments (the six descriptions that reach
+   it, the patterns with a redundant centre / radius / upper-left / shape that exercise every _validate_variable site, and
+   the patterns with nothing to combine), is the model's extrapolate on that pattern: every arithmetic, every oracle.
+   So are _validate_variable (None / pair / quadruple / shape given) and the None path of _convert_units. *)
+Theorem C13_generated_extrapolate_descriptions :
+  forall (T : Type) (OP : ops T) pfwd pinv fac geographic crs_units units,
+    (forall s c r, extrapolate OP pfwd pinv fac geographic crs_units None (Some s) (Some c) (Some r) None None units
+                   = full_nores (gen_extrapolate_crs OP pfwd pinv fac geographic crs_units tt s c r tt tt units)) /\
+    (forall s c d, extrapolate OP pfwd pinv fac geographic crs_units None (Some s) (Some c) None (Some d) None units
+                   = full (gen_extrapolate_cds OP pfwd pinv fac geographic crs_units tt s c tt d tt units)) /\
+    (forall s d ul, extrapolate OP pfwd pinv fac geographic crs_units None (Some s) None None (Some d) (Some ul) units
+                   = full (gen_extrapolate_uds OP pfwd pinv fac geographic crs_units tt s tt tt d ul units)) /\
+    (forall c r d, extrapolate OP pfwd pinv fac geographic crs_units None None (Some c) (Some r) (Some d) None units
+                   = full (gen_extrapolate_crd OP pfwd pinv fac geographic crs_units tt tt c r d tt units)) /\
+    (forall e0 e1 e2 e3 d, extrapolate OP pfwd pinv fac geographic crs_units (Some (e0, e1, e2, e3)) None None None (Some d) None units
+                   = full (gen_extrapolate_ed OP pfwd pinv fac geographic crs_units (e0, e1, e2, e3) tt tt tt d tt units)).
+Proof.
+  intros. refine (conj _ (conj _ (conj _ (conj _ _)))); intros.
+  - apply gen_crs_is_model. - apply gen_cds_is_model. - apply gen_uds_is_model. - apply gen_crd_is_model. - apply gen_ed_is_model.
+Qed.
+Print Assumptions C13_generated_extrapolate_descriptions.
+Theorem C13_generated_extrapolate_redundant :
+  forall (T : Type) (OP : ops T) pfwd pinv fac geographic crs_units units,
+    (forall e0 e1 e2 e3 c d, extrapolate OP pfwd pinv fac geographic crs_units (Some (e0, e1, e2, e3)) None (Some c) None (Some d) None units
+                   = full (gen_extrapolate_ed_c OP pfwd pinv fac geographic crs_units (e0, e1, e2, e3) tt c tt d tt units)) /\
+    (forall e0 e1 e2 e3 r d, extrapolate OP pfwd pinv fac geographic crs_units (Some (e0, e1, e2, e3)) None None (Some r) (Some d) None units
+                   = full (gen_extrapolate_ed_r OP pfwd pinv fac geographic crs_units (e0, e1, e2, e3) tt tt r d tt units)) /\
+    (forall e0 e1 e2 e3 d ul, extrapolate OP pfwd pinv fac geographic crs_units (Some (e0, e1, e2, e3)) None None None (Some d) (Some ul) units
+                   = full (gen_extrapolate_ed_u OP pfwd pinv fac geographic crs_units (e0, e1, e2, e3) tt tt tt d ul units)) /\
+    (forall s c r ul, extrapolate OP pfwd pinv fac geographic crs_units None (Some s) (Some c) (Some r) None (Some ul) units
+                   = full_nores (gen_extrapolate_ucrs OP pfwd pinv fac geographic crs_units tt s c r tt ul units)) /\
+    (forall s c r d, extrapolate OP pfwd pinv fac geographic crs_units None (Some s) (Some c) (Some r) (Some d) None units
+                   = full (gen_extrapolate_crds OP pfwd pinv fac geographic crs_units tt s c r d tt units)).
+Proof.
+  intros. refine (conj _ (conj _ (conj _ (conj _ _)))); intros.
+  - apply gen_ed_c_is_model. - apply gen_ed_r_is_model. - apply gen_ed_u_is_model. - apply gen_ucrs_is_model. - apply gen_crds_is_model.
+Qed.
+Theorem C13_generated_validate_is_model :
+  forall (T : Type) (OP : ops T),
+    (forall n : T * T, gen_validate_none tt n = validate2 OP None n) /\
+    (forall v n : T * T, gen_validate_pair OP v n = validate2 OP (Some v) n) /\
+    (forall v n : T * T * T * T, gen_validate_quad OP v n = validate4 OP (Some v) n) /\
+    (forall v n : Z * Z, gen_validate_shape OP v n = validate_shape OP (Some v) n).
+Proof.
+  intros. refine (conj _ (conj _ (conj _ _))); intros.
+  - apply gen_validate_none_is_model. - apply gen_validate_pair_is_model. - apply gen_validate_quad_is_model. - apply gen_validate_shape_is_model.
+Qed.
+Print Assumptions C13_generated_validate_is_model.
 Example C13_round_shape_ex : round_dim RO 7 = 7%Z /\ 1 / 100 - 1 / 10 ^ 17 < c_001 RO < 1 / 100 + 1 / 10 ^ 17.
 Proof. split; [apply (round_dim_exact 7)|apply c001_bounds]. Qed.
 
@@ -263,3 +311,70 @@ Proof.
   - unfold area_ok. cbn. repeat split; try lia; try lra; try discriminate. right. repeat split; lra.
   - reflexivity.
 Qed.
+
+(* ------------------------------------------------------------------------------------------------------------
+   7. Alternative entry points, the pixel grid of the result, centres in degrees on projected CRSs, repeated cycles. *)
+(* AreaDefinition.from_extent / from_circle (with shape or with resolution) / from_area_of_interest / from_ul_corner pass
+   their arguments to create_area_def by keyword: described from a grid they give that grid *)
+Theorem C13_classmethods_agree :
+  forall pfwd pinv (fac : cu -> R * R) geographic crs_units (g : grid) attr units c s,
+    wf_grid g -> unit_ok fac geographic crs_units (eff_units crs_units attr units) c s ->
+    round_poles RO pfwd pinv (g_center g) (cu_eqb c Cdeg) = Ok (g_center g) ->
+    let want := Area (g_ext g) (gh g, gw g) in
+    let create := create_area_def RO pfwd pinv fac geographic crs_units in
+    create (from_extent (IZR (gh g), IZR (gw g)) ((gx0 g / s, gy0 g / s, gx1 g / s, gy1 g / s), attr) units) = want /\
+    create (from_circle (sc s (g_center g), attr) (sc s (g_radius g), attr) (Some (IZR (gh g), IZR (gw g))) None units) = want /\
+    create (from_circle (sc s (g_center g), attr) (sc s (g_radius g), attr) None (Some (sc s (g_res g), attr)) units) = want /\
+    create (from_area_of_interest (IZR (gh g), IZR (gw g)) (sc s (g_center g), attr) (sc s (g_res g), attr) units) = want /\
+    create (from_ul_corner (IZR (gh g), IZR (gw g)) (sc s (g_ul g), attr) (sc s (g_res g), attr) units) = want.
+Proof. exact classmethods_agree. Qed.
+Print Assumptions C13_classmethods_agree.
+(* composition with the shared grid model (Model/Grid.v, C01): the area made from a description has exactly the pixel size
+   of the grid (= the resolution handed over) and its pixel centres are the canonical ones *)
+Theorem C13_result_pixel_grid :
+  forall (g : grid) (col row : Z), wf_grid g ->
+    (pixel_size_x RO (area_of (g_ext g) (gh g, gw g)) = fst (g_res g) /\ pixel_size_y RO (area_of (g_ext g) (gh g, gw g)) = snd (g_res g)) /\
+    (proj_x RO (area_of (g_ext g) (gh g, gw g)) col = gx0 g + (IZR col + / 2) * fst (g_res g) /\
+     proj_y RO (area_of (g_ext g) (gh g, gw g)) row = gy1 g - (IZR row + / 2) * snd (g_res g)).
+Proof. intros g col row H. exact (conj (result_pixel_size g H) (result_pixel_centres g col row H)). Qed.
+(* dump -> load with a unit rewrite: every pixel centre of the loaded area is the original one times PROJ's factor, i.e. the
+   same point on the ground in the reparsed (metre) CRS; without a rewrite the extents, hence all centres, are identical *)
+Theorem C13_dump_load_pixel_centres :
+  forall (e : R * R * R * R) (s : Z * Z) (k : R) (col row : Z), (1 <= fst s)%Z -> (1 <= snd s)%Z ->
+    proj_x RO (area_of (scale4 k e) s) col = k * proj_x RO (area_of e s) col /\
+    proj_y RO (area_of (scale4 k e) s) row = k * proj_y RO (area_of e s) row.
+Proof. exact scaled_pixel_centres. Qed.
+Print Assumptions C13_dump_load_pixel_centres.
+(* a centre given in degrees on a projected CRS, PROJ's forward projection as oracle *)
+Theorem C13_centre_in_degrees :
+  forall pfwd pinv (fac : cu -> R * R) crs_units, crs_units <> Cdeg ->
+  forall (g : grid) lon lat tok,
+    wf_grid g -> tok = UTdeg \/ tok = UTdegrees ->
+    pfwd (lon, lat) = Some (g_center g) -> c_1em4 RO <= Rabs (Rabs lat - 90) ->
+    round_poles RO pfwd pinv (g_center g) false = Ok (g_center g) ->
+    let create := create_area_def RO pfwd pinv fac false crs_units in
+    let S := Some (IZR (gh g), IZR (gw g)) in
+    let C := Some ((lon, lat), Some tok) in
+    create (mk_args None None None S None C None (Some (sc 1 (g_radius g), None)) None) = Area (g_ext g) (gh g, gw g) /\
+    create (mk_args None None None S None C (Some (sc 1 (g_res g), None)) None None) = Area (g_ext g) (gh g, gw g) /\
+    create (mk_args None None None None None C (Some (sc 1 (g_res g), None)) (Some (sc 1 (g_radius g), None)) None) = Area (g_ext g) (gh g, gw g).
+Proof. exact centre_in_degrees. Qed.
+Print Assumptions C13_centre_in_degrees.
+(* any number of dump / load cycles on the same area object returns the area of the first cycle; from the second cycle on
+   nothing is rewritten (induction over the number of cycles) *)
+Theorem C13_dump_load_cycles :
+  forall (crs_facts : pentry -> bool * cu * (cu -> R * R)) (n : nat) (a : area_rec (T:=R)),
+    area_ok crs_facts a -> load_one RO crs_facts (dump_dict (cycles crs_facts n a)) = Ok (loaded_of crs_facts a).
+Proof. exact dump_load_cycles. Qed.
+Print Assumptions C13_dump_load_cycles.
+Theorem C13_second_cycle_exact :
+  forall crs_facts (n : nat) (a : area_rec (T:=R)), area_ok crs_facts a ->
+    let b := cycles crs_facts (S n) a in
+    loaded_extent crs_facts b = r_ext b /\ r_shape b = r_shape a /\ r_id b = r_id a /\ r_desc b = r_desc a.
+Proof. exact second_cycle_exact. Qed.
+Example C13_cycles_ex :
+  let a := @mk_area_rec R 1 2 3 None (Some UTkm) (5, 6)%Z (-100, -200, 300, 400) in
+  let facts := fun _ : pentry => (false, Cm, fun _ : cu => (1000, 1)) in
+  r_ext (cycles facts 3 a) = (-100 * (1000 * 1), -200 * (1000 * 1), 300 * (1000 * 1), 400 * (1000 * 1)) /\
+  r_units (cycles facts 3 a) = Some UTm.
+Proof. cbn zeta. split; reflexivity. Qed.
